@@ -58,9 +58,14 @@ pub struct Backend {
     pub mode: &'static str,
     pub interval_s: u64,
     pub prop: &'static str,
+    /// after a clean stop the whole history must be recovered (C18 states this for the incremental
+    /// backend; C10 only promises "the last completed flush or the one in progress")
+    pub clean_stop_recovers_everything: bool,
 }
 
-pub const REDB: Backend = Backend { mode: "ReDB", interval_s: 3600, prop: "C18" };
+pub const REDB: Backend = Backend { mode: "ReDB", interval_s: 3600, prop: "C18", clean_stop_recovers_everything: true };
+/// JSON mode with the shortest flush interval the configuration allows (C10's process part)
+pub const JSON_1S: Backend = Backend { mode: "Json", interval_s: 1, prop: "C10", clean_stop_recovers_everything: false };
 
 #[derive(Clone)]
 struct State {
@@ -347,7 +352,7 @@ async fn run_case(case: &Case, kfs: &KnownFindings, backend: Backend) -> Result<
     // which prefix explains the recovered state (latest first)
     let acked_changes = after_req.get(wait_for as usize - 1).copied().unwrap_or(0);
     let mut matched: Option<usize> = None;
-    let lo = if clean { states.len() - 1 } else { 0 };
+    let lo = if clean && backend.clean_stop_recovers_everything { states.len() - 1 } else { 0 };
     for i in (lo..states.len()).rev() {
         // inside a pdelete whose answer was not seen any subset of its keys may be gone
         if states[i].recovered() == got {
@@ -388,7 +393,7 @@ async fn run_case(case: &Case, kfs: &KnownFindings, backend: Backend) -> Result<
         };
         let f = Failure::new(
             "c18.recovered_state",
-            format!("the state after some prefix of the {} single-key changes{}; the final state would be {fin:?}", states.len() - 1, if clean { " (all of them after a clean stop)" } else { "" }),
+            format!("the state after some prefix of the {} single-key changes{}; the final state would be {fin:?}", states.len() - 1, if clean && backend.clean_stop_recovers_everything { " (all of them after a clean stop)" } else { "" }),
             format!("{got:?}"),
         )
         .sig(sig);
